@@ -277,8 +277,13 @@ def promise_ndl(v, tname, t, r):
     """no_data_loss accepted v -> r for target t.  -> None | (key, text)"""
     n = _sized_multi(v)
     if n is not None and n > 1 and isinstance(t, type) and issubclass(t, SCALAR_T):
-        if isinstance(r, enum.Enum) and same(r.value, v):
-            return None
+        if isinstance(r, enum.Enum):
+            # the collection IS a member's value: Enum lookup is by equality ((True, 2.0) == (1, 2)), nothing is collapsed
+            try:
+                if same(r.value, v) or r.value == v:
+                    return None
+            except Exception:
+                pass
         if isinstance(r, (str, bytes, bytearray)) and (r == str(v) or r == str(v).encode()):
             return None
         return ("collection-collapsed-to-scalar", f"{n}-element {type(v).__name__} became the scalar {short(r, 60)}")
